@@ -89,6 +89,22 @@ def expr(fd, op, depth=0, seen=None):
         if base[0] in ("param", "?"):
             return ("field", flds[-1][0], flds[-1][2])
         return ("call", "field:%s.%s" % (flds[-1][0], flds[-1][2]), [base])
+    tf = [pp for pp in p.proj if pp["k"] == "field" and pp.get("tuple")]
+    nd = [pp for pp in p.proj if pp["k"] != "deref"]
+    if nd and nd[0]["k"] == "field" and nd[0].get("tuple") and flds:
+        # (tuple.i as Variant).field : the component first, the rest of the path is dropped
+        base = expr(fd, Operand({"k": "copy", "pl": {"l": l, "p": []}}), depth + 1, seen)
+        if base[0] == "call" and base[1] == "agg:tuple" and nd[0]["i"] < len(base[2]):
+            return base[2][nd[0]["i"]]
+        return ("call", "tuple.%d" % nd[0]["i"], [base])
+    if tf and not flds:
+        # a component of a tuple value: keep which one
+        base = expr(fd, Operand({"k": "copy", "pl": {"l": l, "p": []}}), depth + 1, seen)
+        if base[0] == "call" and base[1] == "agg:tuple" and tf[-1]["i"] < len(base[2]):
+            return base[2][tf[-1]["i"]]
+        if base[0] == "bin" and tf[-1]["i"] == 0:
+            return base             # the value component of checked arithmetic (AddWithOverflow(..).0)
+        return ("call", "tuple.%d" % tf[-1]["i"], [base])
     if (l, tuple(str(x) for x in p.proj)) in seen:
         return ("?",)
     seen = seen | {(l, tuple(str(x) for x in p.proj))}
